@@ -46,7 +46,7 @@ import warnings
 import numpy as np
 
 from ..explorer import _mk_report, build, explore
-from ..ref.c19_apweights import weights
+from ..ref.c19_apweights import data_points, match_points, weights
 from ..runner import Acc
 from ..snapshot import key as state_key
 
@@ -92,6 +92,26 @@ ASSUMPTIONS = ['numpy, scipy PchipInterpolator are trusted; photutils.geometry k
 
 EPS = np.finfo(float).eps
 SHAPE = (21, 23)          # (ny, nx): not square, so that a test mixing up nx and ny shows
+# orientation axis: 'wide' is the scene as built below (21 rows x 23 columns, nx > ny); 'tall' is the TRANSPOSED scene
+# (23 rows x 21 columns, ny > nx): data.T, error.T, mask.T and the centre (yc, xc).  A mix-up of the two axes that is
+# harmless in one orientation (clipping with the larger extent) is an out-of-range index or a lost strip in the other.
+ORIENTS = ('wide', 'tall')
+
+
+def shape_of(orient):
+    return SHAPE if orient == 'wide' else SHAPE[::-1]
+
+
+def centre_of(cname, orient='wide'):
+    xc, yc = ALL_CENTRES[cname]
+    return (xc, yc) if orient == 'wide' else (yc, xc)
+
+
+def orient_of(case):
+    o = case.get('orient', 'wide')
+    if o not in ORIENTS:
+        raise ValueError(o)
+    return o
 CENTRES = {'middle': (11.0, 10.0), 'half': (11.5, 9.5), 'generic': (10.3, 11.7), 'edge2': (2.0, 10.0), 'outside': (-1.0, 10.0)}
 RADII = {'int0': [0, 1, 2, 3, 4, 5, 6, 7], 'int1': [1, 2, 3, 4, 5, 6, 7], 'nonuniform': [0, 0.7, 1.5, 3.1, 4.0, 7.3],
          'fine': [round(0.1 + 0.1 * k, 10) for k in range(20)]}
@@ -231,21 +251,34 @@ def make_mask(case, data, error):
 class Ref:
     """Reference aperture sums for one (centre, method): weight maps cached per radius."""
 
-    def __init__(self, cname, mname):
-        self.xc, self.yc = ALL_CENTRES[cname]
+    def __init__(self, cname, mname, orient='wide'):
+        self.shape = shape_of(orient)
+        self.xc, self.yc = centre_of(cname, orient)
         self.method, self.sub = METHODS[mname]
         self.cache = {}
+        self.pcache = {}
 
     def w(self, r):
         if r not in self.cache:
-            self.cache[r] = weights(SHAPE, self.xc, self.yc, float(r), self.method, self.sub)
+            self.cache[r] = weights(self.shape, self.xc, self.yc, float(r), self.method, self.sub)
         return self.cache[r]
+
+    def points(self, rmax):
+        """Pixels of the raw data profile (documented: the data points within the largest radius)."""
+        if rmax not in self.pcache:
+            self.pcache[rmax] = data_points(self.shape, self.xc, self.yc, float(rmax))
+        return self.pcache[rmax]
+
+    def box_clipped(self, rmax):
+        """Does the bounding square of the largest circle leave the pixel-index range of the image?"""
+        return (self.xc - rmax < 0 or self.yc - rmax < 0 or self.xc + rmax > self.shape[1] - 1
+                or self.yc + rmax > self.shape[0] - 1)
 
     def overlaps(self, r):
         """Does the open disk meet the image area?  If not, aperture photometry documents NaN for the aperture
         (an all-zero sum is accepted as well: the property does not speak about circles off the image)."""
-        return (r > 0 and self.xc + r > -0.5 and self.xc - r < SHAPE[1] - 0.5
-                and self.yc + r > -0.5 and self.yc - r < SHAPE[0] - 0.5) or r <= 0
+        return (r > 0 and self.xc + r > -0.5 and self.xc - r < self.shape[1] - 0.5
+                and self.yc + r > -0.5 and self.yc - r < self.shape[0] - 0.5) or r <= 0
 
     def sums(self, r, values, good):
         """-> (sum of w*values over good pixels, tolerance).  tolerance = kernel accuracy (exact: 1e-8 per pixel
@@ -265,7 +298,8 @@ class Ref:
 def largest_inside(ref, radii):
     """Does the largest circle lie inside the true extent [-0.5, nx - 0.5] x [-0.5, ny - 0.5] of the pixel grid?"""
     r = float(radii[-1])
-    return ref.xc - r >= -0.5 and ref.yc - r >= -0.5 and ref.xc + r <= SHAPE[1] - 0.5 and ref.yc + r <= SHAPE[0] - 0.5
+    return (ref.xc - r >= -0.5 and ref.yc - r >= -0.5 and ref.xc + r <= ref.shape[1] - 0.5
+            and ref.yc + r <= ref.shape[0] - 0.5)
 
 
 def cut_or_masked(ref, radii, good):
@@ -285,6 +319,13 @@ def build_obj(cls, case, seed):
     data = make_image(case['image'], case['centre'], seed)
     error = make_error(seed) if case['error'] == 'map' else None
     mask, data, error, bad = make_mask(case, data, error)
+    orient = orient_of(case)
+    if orient == 'tall':
+        # the transposed scene (fresh C-contiguous arrays: the memory layout is not an axis of this check)
+        data = np.ascontiguousarray(data.T)
+        error = None if error is None else np.ascontiguousarray(error.T)
+        mask = None if mask is None else np.ascontiguousarray(mask.T)
+        bad = np.ascontiguousarray(bad.T)
     d_in, e_in = data, error
     if case.get('unit'):
         d_in = data * u.Jy
@@ -292,7 +333,7 @@ def build_obj(cls, case, seed):
     method, sub = METHODS[case['method']]
     with warnings.catch_warnings():
         warnings.simplefilter('ignore')
-        obj = cls(d_in, ALL_CENTRES[case['centre']], np.array(radii_of(case), dtype=float), error=e_in,
+        obj = cls(d_in, centre_of(case['centre'], orient), np.array(radii_of(case), dtype=float), error=e_in,
                   mask=None if mask is None else mask.copy(), method=method, subpixels=sub)
     return obj, data, error, ~bad
 
@@ -305,7 +346,7 @@ def check_profile(acc, case, seed, refs):
     from photutils.profiles import CurveOfGrowth, RadialProfile
     import astropy.units as u
     cls = CurveOfGrowth if case['cls'] == 'cog' else RadialProfile
-    ref = refs[(case['centre'], case['method'])]
+    ref = refs[(case['centre'], case['method'], orient_of(case))]
     radii = radii_of(case)
     try:
         obj, data, error, good = build_obj(cls, case, seed)
@@ -333,7 +374,7 @@ def check_profile(acc, case, seed, refs):
         s, t = ref.sums(r, dfin, good)
         F.append(s)
         tF.append(t)
-        s, t = ref.sums(r, np.ones(SHAPE), good)
+        s, t = ref.sums(r, np.ones(ref.shape), good)
         A.append(s)
         tA.append(t)
         if error is not None:
@@ -389,6 +430,7 @@ def check_profile(acc, case, seed, refs):
         check_ee(acc, case, obj, prof, np.array(radii, float))
         return
     # ---- RadialProfile
+    check_data_profile(acc, case, obj, data, good, ref, radii, pred)
     rc = (np.array(radii[:-1], float) + np.array(radii[1:], float)) / 2
     if not np.allclose(_val(radius), rc, rtol=4 * EPS, atol=0):
         acc.violation('radius', site0, case, radius, rc)
@@ -419,6 +461,41 @@ def check_profile(acc, case, seed, refs):
         if bad.any():
             acc.violation('rp-constant', f'{site0}:{pred}', case, prof.tolist(), CONST,
                           f'bin {int(np.argmax(bad))}: {prof[int(np.argmax(bad))]!r} != {CONST}')
+
+
+def check_data_profile(acc, case, obj, data, good, ref, radii, pred):
+    """RadialProfile.data_radius / data_profile of the fresh object = the documented raw data profile: the (radius,
+    value) pairs of the image pixels whose centre lies within the largest radius.  Compared as a multiset (the order
+    is not specified); values are copies of the input pixels (bit-exact), radii one hypot (4 eps relative; clusters of
+    1e-12 (1 + rmax) absorb that).  Required: every unmasked finite pixel certainly inside; optional (either
+    decision accepted): pixels within 1e-12 (1 + rmax) of the circle, and masked / non-finite pixels (the property
+    does not say whether the raw data profile shows them)."""
+    rmax = float(radii[-1])
+    try:
+        with warnings.catch_warnings():
+            warnings.simplefilter('ignore')
+            got_r, got_v = _val(obj.data_radius), _val(obj.data_profile)
+    except Exception as e:
+        acc.violation('data-profile-raises', f'rp:{type(e).__name__}', case, repr(e),
+                      'data_radius / data_profile of the pixels within the largest radius')
+        return
+    iy, ix, rr, cert = ref.points(rmax)
+    acc.counters['data_profile_cases'] += 1
+    acc.counters['data_profile_pixels'] += int(rr.size)
+    if ref.box_clipped(rmax):
+        acc.counters['data_profile_cases_box_clipped_by_image'] += 1
+    if got_r.ndim != 1 or got_r.shape != got_v.shape:
+        acc.violation('rp-data-profile', f'shape:{pred}', case, [list(got_r.shape), list(got_v.shape)],
+                      'two 1D arrays of equal length')
+        return
+    required = cert & good[iy, ix]
+    miss, extra, ex = match_points(got_r, got_v, rr, data[iy, ix], required, 1e-12 * (1.0 + rmax))
+    if miss or extra:
+        what = 'pixels-missing' if not extra else ('points-not-in-image' if not miss else 'mismatch')
+        acc.violation('rp-data-profile', f'{what}:{pred}', case, {'returned pairs': int(got_r.size), 'missing': miss, 'unmatched': extra},
+                      {'pixels within the largest radius': int(rr.size), 'required': int(required.sum())},
+                      f'{orient_of(case)} image {list(ref.shape)}, centre ({ref.xc}, {ref.yc}), rmax {rmax}: {miss} required '
+                      f'pixel(s) not returned, {extra} returned pair(s) match no pixel; first cluster {ex}')
 
 
 def check_ee(acc, case, obj, prof, radii):
@@ -485,31 +562,48 @@ def ee_roundtrip(obj, prof, radii, report, skip):
 #             entry in profile / profile_error (max and sum are documented to ignore it)
 H_IMAGES = {'pos': 0.0, 'neg': -9.0, 'pedestal': -5.0, 'zero': None, 'nanbin': 0.0}
 H_SIGNS = {'pos': (1, 1), 'neg': (-1, -1), 'pedestal': (1, -1), 'zero': (0, 0), 'nanbin': (1, 1)}
-ROOTS = {}
-for _img in H_IMAGES:
-    for _cls in ('rp', 'cog'):
-        for _err in (True, False):
-            for _unit in (False, True):
-                ROOTS[f'{_cls}_{"err" if _err else "noerr"}{"_unit" if _unit else ""}_{_img}'] = {
-                    'cls': _cls, 'error': _err, 'unit': _unit, 'image': _img}
-H_SHAPE = (11, 13)
 H_RADII = [0.0, 1.0, 2.0, 3.5, 5.0]
+# geometry of the root scene: (ny, nx), (xc, yc).  'inside': the largest circle (r = 5) lies inside a wide image;
+# 'corner-wide' / 'corner-tall': it leaves the right-hand AND the upper edge of a wide (11 x 13) / tall (13 x 11) image
+# (the tall scene is the wide one transposed), so the lazily evaluated arrays (data_profile is first evaluated INSIDE
+# normalize / unnormalize when it was not read before) are built on a clipped footprint in both orientations.
+H_GEOM = {'inside': ((11, 13), (6.2, 5.1)), 'corner-wide': ((11, 13), (9.6, 7.3)), 'corner-tall': ((13, 11), (7.3, 9.6))}
+for _g, (_shp, (_x, _y)) in H_GEOM.items():
+    _cut = _x + H_RADII[-1] > _shp[1] - 0.5 and _y + H_RADII[-1] > _shp[0] - 0.5
+    assert _cut == (_g != 'inside') and _x - H_RADII[-1] > -0.5 and _y - H_RADII[-1] > -0.5, _g
+ROOTS = {}
+for _g in H_GEOM:
+    for _img in H_IMAGES:
+        for _cls in ('rp', 'cog'):
+            for _err in (True, False):
+                for _unit in (False, True):
+                    ROOTS[f'{_cls}_{"err" if _err else "noerr"}{"_unit" if _unit else ""}_{_img}'
+                          + ('' if _g == 'inside' else f'@{_g}')] = {
+                        'cls': _cls, 'error': _err, 'unit': _unit, 'image': _img, 'geom': _g}
 
 
 def _h_inputs(root, seed):
     import astropy.units as u
     spec = ROOTS[root]
     rng = rng_for(seed, 7)
-    yy, xx = np.mgrid[0:H_SHAPE[0], 0:H_SHAPE[1]]
-    data = 6.0 * np.exp(-((xx - 6.2) ** 2 + (yy - 5.1) ** 2) / 7.0) + rng.random(H_SHAPE)
-    noise = rng.random(H_SHAPE)      # drawn for every root so that all roots share the same numbers
+    shape, (xc, yc) = H_GEOM[spec['geom']]
+    tall = spec['geom'] == 'corner-tall'
+    if tall:                          # built as the wide scene, transposed at the end
+        shape, (xc, yc) = shape[::-1], (yc, xc)
+    yy, xx = np.mgrid[0:shape[0], 0:shape[1]]
+    data = 6.0 * np.exp(-((xx - xc) ** 2 + (yy - yc) ** 2) / 7.0) + rng.random(shape)
+    noise = rng.random(shape)      # drawn for every root so that all roots share the same numbers
     err = (1.0 + noise) if spec['error'] else None
     off = H_IMAGES[spec['image']]
-    data = np.zeros(H_SHAPE) if off is None else data + off
+    data = np.zeros(shape) if off is None else data + off
     mask = None
     if spec['image'] == 'nanbin':
-        r = np.hypot(xx - 6.2, yy - 5.1)
+        r = np.hypot(xx - xc, yy - yc)
         mask = (r >= 2.0 - 0.75) & (r <= 3.5 + 0.75)      # every pixel that touches the annulus (half diagonal 0.71)
+    if tall:
+        data = np.ascontiguousarray(data.T)
+        err = None if err is None else np.ascontiguousarray(err.T)
+        mask = None if mask is None else np.ascontiguousarray(mask.T)
     if spec['unit']:
         data = data * u.Jy
         err = None if err is None else err * u.Jy
@@ -522,7 +616,7 @@ def _h_new(root, seed):
     data, err, mask = _h_inputs(root, seed)
     cls = RadialProfile if spec['cls'] == 'rp' else CurveOfGrowth
     radii = np.array(H_RADII if spec['cls'] == 'rp' else H_RADII[1:])
-    return cls(data, (6.2, 5.1), radii, error=err, mask=mask)
+    return cls(data, H_GEOM[spec['geom']][1], radii, error=err, mask=mask)
 
 
 def _helper_state(v, depth=0):
@@ -551,10 +645,21 @@ class HSystem:
     def __init__(self, root, seed, tier):
         self.root, self.seed, self.tier = root, seed, tier
         self.names = ['profile', 'profile_error'] + (['data_profile'] if ROOTS[root]['cls'] == 'rp' else [])
+        # compared in every state, never an operation of its own: area, radius and (RadialProfile) data_radius
+        self.fixed = ['area', 'radius'] + (['data_radius'] if ROOTS[root]['cls'] == 'rp' else [])
         self.cog = ROOTS[root]['cls'] == 'cog'
         self.skip = lambda reason: None       # run_unit / replay put acc.skip here
         fresh = _h_new(root, seed)
-        self.raw = {n: getattr(fresh, n) for n in self.names + ['area', 'radius']}
+        self.raw, self.broken = {}, {}
+        for n in self.names + self.fixed:
+            try:
+                with warnings.catch_warnings():
+                    warnings.simplefilter('ignore')
+                    self.raw[n] = getattr(fresh, n)
+            except Exception as e:        # an array of the FRESH object cannot be read: reported by root_broken()
+                self.broken[n] = e
+        if self.broken:
+            return
         self.unit = getattr(self.raw['profile'], 'unit', None)
         p = _val(self.raw['profile'])
         signs = (int(np.sign(np.nanmax(p))), int(np.sign(np.nansum(p))))
@@ -562,6 +667,15 @@ class HSystem:
             raise RuntimeError(f'root {root}: (sign of max, sign of sum) of the profile is {signs}, not as designed')
         if ROOTS[root]['image'] == 'nanbin' and ROOTS[root]['cls'] == 'rp' and not np.isnan(p).any():
             raise RuntimeError(f'root {root}: the masked annulus was expected to give a NaN bin')
+
+    def root_broken(self, acc):
+        """An array of the fresh (never normalised) object raises: a violation of its own (the histories of this
+        root have no oracle then and are not explored)."""
+        for n, e in self.broken.items():
+            acc.case(nontrivial=True)
+            acc.violation('read-raises', f'{n}:{type(e).__name__}:fresh-object', {'kind': 'history', 'root': self.root, 'history': []},
+                          repr(e), 'a value')
+        return bool(self.broken)
 
     def initial(self):
         st = HState()
@@ -599,7 +713,7 @@ class HSystem:
 
     def _expect(self, st, name):
         raw = _val(self.raw[name])
-        if name in ('area', 'radius'):
+        if name in ('area', 'radius', 'data_radius'):
             return raw
         return raw / self._factor(st)
 
@@ -711,7 +825,7 @@ class HSystem:
     def invariant(self, st, report):
         with warnings.catch_warnings():
             warnings.simplefilter('ignore')
-            for name in self.names + ['area', 'radius']:
+            for name in self.names + self.fixed:
                 if name == 'data_profile' and st.norm:
                     continue
                 try:
@@ -746,7 +860,7 @@ def radii_names(tier, cname):
     return general
 
 
-def product_cases(tier, cname, mname):
+def product_cases(tier, cname, mname, orient='wide'):
     for image in IMAGES:
         for rname in radii_names(tier, cname):
             for evar in ERRORS:
@@ -758,14 +872,15 @@ def product_cases(tier, cname, mname):
                         for un in units:
                             yield {'kind': 'profile', 'cls': cls, 'image': image, 'centre': cname, 'radii': rname,
                                    'mask': mvar, 'nonfinite': nf, 'cover': cv, 'error': evar, 'method': mname,
-                                   'unit': un}
+                                   'unit': un, 'orient': orient}
 
 
 def plan(tier, seed):
     units = []
-    for cname in ALL_CENTRES:
-        for mname in METHODS:
-            units.append({'kind': 'product', 'centre': cname, 'method': mname})
+    for orient in ORIENTS:
+        for cname in ALL_CENTRES:
+            for mname in METHODS:
+                units.append({'kind': 'product', 'centre': cname, 'method': mname, 'orient': orient})
     for root in ROOTS:
         nops = 6 if ROOTS[root]['cls'] == 'rp' else 7        # = len(HSystem.ops) of the quick tier
         nops += 1 if tier == 'thorough' else 0
@@ -777,12 +892,15 @@ def plan(tier, seed):
 def run_unit(unit, tier, seed):
     acc = Acc()
     if unit['kind'] == 'product':
-        refs = {(unit['centre'], unit['method']): Ref(unit['centre'], unit['method'])}
-        for case in product_cases(tier, unit['centre'], unit['method']):
+        orient = unit.get('orient', 'wide')
+        refs = {(unit['centre'], unit['method'], orient): Ref(unit['centre'], unit['method'], orient)}
+        for case in product_cases(tier, unit['centre'], unit['method'], orient):
             check_profile(acc, case, seed, refs)
     else:
         sysm = HSystem(unit['root'], seed, tier)
         sysm.skip = acc.skip
+        if sysm.root_broken(acc):
+            return acc
         explore(sysm, h_depth(tier), acc, first_ops=unit['first'], extra={'kind': 'history', 'root': unit['root']},
                 root_check=(unit['first'][0] == 0))
     return acc
@@ -795,11 +913,14 @@ def _tup(x):
 def replay(case, seed):
     acc = Acc()
     if case['kind'] == 'profile':
-        refs = {(case['centre'], case['method']): Ref(case['centre'], case['method'])}
+        orient = orient_of(case)
+        refs = {(case['centre'], case['method'], orient): Ref(case['centre'], case['method'], orient)}
         check_profile(acc, case, seed, refs)
         return acc
     sysm = HSystem(case['root'], seed, 'thorough')
     sysm.skip = acc.skip
+    if sysm.root_broken(acc):
+        return acc
     hist = _tup(case['history'])
     extra = {k: v for k, v in case.items() if k != 'history'}
     if hist:
